@@ -288,6 +288,7 @@ func (c *ctx) genFacts() string {
 	facts = append(facts, c.rawSeqCompareFact())
 	facts = append(facts, c.stateTestsFact())
 	facts = append(facts, c.lockFacts()...)
+	facts = append(facts, c.concFacts()...)
 	for _, f := range facts {
 		b.WriteString(f.lean() + "\n")
 	}
